@@ -149,6 +149,35 @@ func queueLinear(cfg Config, file string, runs, steps int) (int, error) {
 			}
 		})
 	}
+	// bulk runs: fill far past the usual growth thresholds (256, 1024), drain completely
+	// with a short refill in the middle, refill: size-dependent paths of the storage
+	bulk := 1500
+	if cfg.Tier == "thorough" {
+		bulk = 5000
+	}
+	for r := 0; r < 2; r++ {
+		s := &queueSys{hasN: hasN}
+		linked := r == 1
+		ls.Run(s, func(step int) (tt.Op, bool) {
+			switch {
+			case step == 0 && linked:
+				return op("newl", 7), true
+			case step == 0:
+				return op("newq"), true
+			case step <= bulk:
+				return op("enq", 1+(step*7)%50), true
+			case step <= bulk+bulk/2:
+				return op("deq"), true
+			case step <= bulk+bulk/2+20:
+				return op("enq", 1+(step*3)%50), true
+			case step <= 2*bulk+60:
+				return op("deq"), true
+			case step <= 2*bulk+90:
+				return op("enq", 1+step%50), true
+			}
+			return tt.Op{}, false
+		})
+	}
 	return ls.Close()
 }
 
@@ -172,8 +201,8 @@ func init() {
 			}
 			s.Files = append(s.Files, f)
 			s.Nodes += n
-			s.Leaves += runs
-			s.Extra["linear_runs"] = runs
+			s.Leaves += runs + 2
+			s.Extra["linear_runs"] = runs + 2
 			s.Extra["linear_nodes"] = n
 			return s, nil
 		},
